@@ -211,6 +211,13 @@ func (rl *ReplicaLeader) sendData(wait usync.WaitCloser, req *pb.SyncRequest, st
 		// @TODO @OPTIMIZE reuse, array of []byte, notice that stream.Send is async
 		buf := make([]byte, 1024*4)
 		n, err := ioReader.Read(buf)
+		// a reader may survive a switch of the cache to another replication id (the memory cache keeps its
+		// readers, they follow the new writer): what it delivers from then on is not the history the follower
+		// asked for and must not be stored under that id
+		if id := rl.channel.RunId(); id != reqSp.RunId {
+			err := fmt.Errorf("run id is stale : channel_run_id(%s), replica_run_id(%s)", id, reqSp.RunId)
+			return rl.handleError(stream, err, pb.SyncResponse_ERROR, "internal error", "")
+		}
 		if err != nil {
 			if errors.Is(err, io.EOF) && n > 0 {
 				buf = buf[:n]
